@@ -1,319 +1,478 @@
-"""C06: every function / operator / constructor / conversion DECLARED in LinearSpace.h, AffineSpace.h, Quaternion.h
-(keys as produced by opscan.py from the clang AST) with the case kind(s) of harness/C06/harness.cpp that execute it, or the
-reason why it is excluded.  props/C06/check.py fails when the headers declare something that is in neither table, or when
-a covered declaration is no longer instantiated by tools/cxx2coq/inst/lin.cpp / linconv.cpp."""
+"""C06 inventory: every function / operator / constructor / conversion DECLARED in LinearSpace.h, AffineSpace.h, Quaternion.h
+(keys produced by opscan.py from the clang AST on every run: '<header> [Class::]<name> <declared type>').
+COVER maps a declaration to the harness case kinds that execute it (ops), the theorems of coq/C06/Properties*.v about it, and a
+note; EXCLUDE gives the reason a declaration is out of scope.  props/C06/check.py fails closed when the headers declare something
+that is in neither table, when a table entry's declaration vanished or changed its signature, when a covered declaration is no
+longer instantiated by tools/cxx2coq/inst/*.cpp, when none of its ops executed a case in the run, or when a listed theorem does
+not exist.  Stream operators and pointer conversions have no theorem (outside the numeric model): harness + oracle only."""
 COVER = {
-    'AffineSpace.h AffineSpaceT::<constructor> void (const AffineSpaceT<L> &)':
-        'oa3 (A c = a)',
-    'AffineSpace.h AffineSpaceT::<constructor> void (const L &)':
-        'r2 / rot (rotate returns L converted to AffineSpaceT)',
-    'AffineSpace.h AffineSpaceT::operator= AffineSpaceT<L> &(const AffineSpaceT<L> &)':
-        'oa3',
-    'AffineSpace.h AffineSpaceT::<constructor> void (const typename L::Vector &, const typename L::Vector &, const typename L::Vector &, const typename L::Vector &)':
-        'oa3',
-    'AffineSpace.h AffineSpaceT::<constructor> void (const L &, const typename L::Vector &)':
-        'a3 (every case builds its input with it)',
-    'AffineSpace.h AffineSpaceT::<constructor> void (const AffineSpaceT<L1> &)':
-        'ocv (padded -> plain) + theorem convert_affine_padded_to_plain',
-    'AffineSpace.h AffineSpaceT::operator type-parameter-0-0 * L *()':
-        'ocv (pointer view of the linear part; pointers are outside the translated subset)',
-    'AffineSpace.h AffineSpaceT::operator const type-parameter-0-0 * const L *() const':
-        'ocv (pointer view of the linear part; pointers are outside the translated subset)',
-    'AffineSpace.h AffineSpaceT::<constructor> void (rkcommon::math::ZeroTy)':
-        'oa3',
-    'AffineSpace.h AffineSpaceT::<constructor> void (rkcommon::math::OneTy)':
-        'oa3',
-    'AffineSpace.h AffineSpaceT::scale AffineSpaceT<L> (const typename L::Vector &)':
-        'a3',
-    'AffineSpace.h AffineSpaceT::translate AffineSpaceT<L> (const typename L::Vector &)':
-        'a3',
-    'AffineSpace.h AffineSpaceT::rotate AffineSpaceT<L> (const typename L::Vector::Scalar &)':
-        'r2 (inside rotate(p, r))',
-    'AffineSpace.h AffineSpaceT::rotate AffineSpaceT<L> (const typename L::Vector &, const typename L::Vector::Scalar &)':
-        'rot (inside rotate(p,u,r))',
-    'AffineSpace.h AffineSpaceT::rotate AffineSpaceT<L> (const QuaternionT<typename L::Vector::Scalar> &)':
-        'ocv + theorem quat_abs_and_rotate_wrapper (LinearSpace3(q) itself: rot)',
-    'AffineSpace.h AffineSpaceT::rotate AffineSpaceT<L> (const typename L::Vector &, const typename L::Vector &, const typename L::Vector::Scalar &)':
-        'rot',
-    'AffineSpace.h AffineSpaceT::lookat AffineSpaceT<L> (const typename L::Vector &, const typename L::Vector &, const typename L::Vector &)':
-        'look',
-    'AffineSpace.h operator- AffineSpaceT<L> (const AffineSpaceT<L> &)':
-        'oa3',
-    'AffineSpace.h operator+ AffineSpaceT<L> (const AffineSpaceT<L> &)':
-        'oa3',
-    'AffineSpace.h rcp AffineSpaceT<L> (const AffineSpaceT<L> &)':
-        'a3, a2',
-    'AffineSpace.h operator+ AffineSpaceT<L> (const AffineSpaceT<L> &, const AffineSpaceT<L> &)':
-        'oa3',
-    'AffineSpace.h operator- AffineSpaceT<L> (const AffineSpaceT<L> &, const AffineSpaceT<L> &)':
-        'oa3',
-    'AffineSpace.h operator* AffineSpaceT<L> (const typename L::Vector::Scalar &, const AffineSpaceT<L> &)':
-        'oa3',
-    'AffineSpace.h operator* AffineSpaceT<L> (const AffineSpaceT<L> &, const AffineSpaceT<L> &)':
-        'a3, a2',
-    'AffineSpace.h operator/ AffineSpaceT<L> (const AffineSpaceT<L> &, const AffineSpaceT<L> &)':
-        'oa3',
-    'AffineSpace.h operator*= AffineSpaceT<L> &(AffineSpaceT<L> &, const AffineSpaceT<L> &)':
-        'oa3, oa2',
-    'AffineSpace.h operator/= AffineSpaceT<L> &(AffineSpaceT<L> &, const AffineSpaceT<L> &)':
-        'oa3',
-    'AffineSpace.h xfmPoint const typename L::Vector (const AffineSpaceT<L> &, const typename L::Vector &)':
-        'a3',
-    'AffineSpace.h xfmVector const typename L::Vector (const AffineSpaceT<L> &, const typename L::Vector &)':
-        'a3',
-    'AffineSpace.h xfmNormal const typename L::Vector (const AffineSpaceT<L> &, const typename L::Vector &)':
-        'a3',
-    'AffineSpace.h operator== bool (const AffineSpaceT<L> &, const AffineSpaceT<L> &)':
-        'oa3 + ocv (single-entry perturbations)',
-    'AffineSpace.h operator!= bool (const AffineSpaceT<L> &, const AffineSpaceT<L> &)':
-        'oa3 + ocv (single-entry perturbations)',
-    'AffineSpace.h operator<< std::ostream &(std::ostream &, const AffineSpaceT<L> &)':
-        'ocv (printed text parsed back)',
-    'AffineSpace.h rotate rkcommon::math::AffineSpace2f (const rkcommon::math::vec2f &, const float &)':
-        'r2',
-    'LinearSpace.h LinearSpace2::<constructor> void (const LinearSpace2<T> &)':
-        'ol2 (L c = a)',
-    'LinearSpace.h LinearSpace2::operator= LinearSpace2<T> &(const LinearSpace2<T> &)':
-        'ol2 (inside c *= b) + theorem assign_operators',
-    'LinearSpace.h LinearSpace2::<constructor> void (const LinearSpace2<L1> &)':
-        'ocv (from vec2d) + theorem convert_double_to_float_2x2',
-    'LinearSpace.h LinearSpace2::<constructor> void (const rkcommon::math::LinearSpace2::Vector &, const rkcommon::math::LinearSpace2::Vector &)':
-        'l2 (every case builds its input with it)',
-    'LinearSpace.h LinearSpace2::<constructor> void (const rkcommon::math::LinearSpace2::Scalar &, const rkcommon::math::LinearSpace2::Scalar &, const rkcommon::math::LinearSpace2::Scalar &, const rkcommon::math::LinearSpace2::Scalar &)':
-        'l2 (adjoint/transposed/scale use the row-major constructor)',
-    'LinearSpace.h LinearSpace2::det const rkcommon::math::LinearSpace2::Scalar () const':
-        'l2',
-    'LinearSpace.h LinearSpace2::adjoint const LinearSpace2<T> () const':
-        'l2',
-    'LinearSpace.h LinearSpace2::inverse const LinearSpace2<T> () const':
-        'l2',
-    'LinearSpace.h LinearSpace2::transposed const LinearSpace2<T> () const':
-        'l2',
-    'LinearSpace.h LinearSpace2::row0 const rkcommon::math::LinearSpace2::Vector () const':
-        'l2',
-    'LinearSpace.h LinearSpace2::row1 const rkcommon::math::LinearSpace2::Vector () const':
-        'l2',
-    'LinearSpace.h LinearSpace2::<constructor> void (rkcommon::math::ZeroTy)':
-        'ol2',
-    'LinearSpace.h LinearSpace2::<constructor> void (rkcommon::math::OneTy)':
-        'ol2',
-    'LinearSpace.h LinearSpace2::scale LinearSpace2<T> (const rkcommon::math::LinearSpace2::Vector &)':
-        'l2',
-    'LinearSpace.h LinearSpace2::rotate LinearSpace2<T> (const rkcommon::math::LinearSpace2::Scalar &)':
-        'r2',
-    'LinearSpace.h LinearSpace2::orthogonal LinearSpace2<T> () const':
-        'o2',
-    'LinearSpace.h operator- LinearSpace2<T> (const LinearSpace2<T> &)':
-        'o2 step model / theorem unary_operators',
-    'LinearSpace.h operator+ LinearSpace2<T> (const LinearSpace2<T> &)':
-        'ol2',
-    'LinearSpace.h rcp LinearSpace2<T> (const LinearSpace2<T> &)':
-        'a2 (rcp of an affine map) + ol2 (a / b)',
-    'LinearSpace.h operator+ LinearSpace2<T> (const LinearSpace2<T> &, const LinearSpace2<T> &)':
-        'o2 (step: m + m^-T, m_next - m)',
-    'LinearSpace.h operator- LinearSpace2<T> (const LinearSpace2<T> &, const LinearSpace2<T> &)':
-        'o2 (step: m + m^-T, m_next - m)',
-    'LinearSpace.h operator* LinearSpace2<T> (const typename T::Scalar &, const LinearSpace2<T> &)':
-        'o2 (0.5 * ...)',
-    'LinearSpace.h operator* T (const LinearSpace2<T> &, const T &)':
-        'l2',
-    'LinearSpace.h operator* LinearSpace2<T> (const LinearSpace2<T> &, const LinearSpace2<T> &)':
-        'l2',
-    'LinearSpace.h operator/ LinearSpace2<T> (const LinearSpace2<T> &, const typename T::Scalar &)':
-        'l2 (inverse = adjoint / det)',
-    'LinearSpace.h operator/ LinearSpace2<T> (const LinearSpace2<T> &, const LinearSpace2<T> &)':
-        'ol2',
-    'LinearSpace.h operator*= LinearSpace2<T> &(LinearSpace2<T> &, const LinearSpace2<T> &)':
-        'ol2',
-    'LinearSpace.h operator/= LinearSpace2<T> &(LinearSpace2<T> &, const LinearSpace2<T> &)':
-        'ol2',
-    'LinearSpace.h operator== bool (const LinearSpace2<T> &, const LinearSpace2<T> &)':
-        'ol2 + ocv (single-entry perturbations)',
-    'LinearSpace.h operator!= bool (const LinearSpace2<T> &, const LinearSpace2<T> &)':
-        'ol2 + ocv (single-entry perturbations)',
-    'LinearSpace.h operator<< std::ostream &(std::ostream &, const LinearSpace2<T> &)':
-        'ocv (printed text parsed back)',
-    'LinearSpace.h LinearSpace3::<constructor> void (const LinearSpace3<T> &)':
-        'ol3 (L c = a)',
-    'LinearSpace.h LinearSpace3::operator= LinearSpace3<T> &(const LinearSpace3<T> &)':
-        'ol3 (inside c *= b) + theorem assign_operators',
-    'LinearSpace.h LinearSpace3::<constructor> void (const LinearSpace3<L1> &)':
-        'ocv (vec3fa <-> vec3f) + theorems convert_*',
-    'LinearSpace.h LinearSpace3::<constructor> void (const rkcommon::math::LinearSpace3::Vector &, const rkcommon::math::LinearSpace3::Vector &, const rkcommon::math::LinearSpace3::Vector &)':
-        'l3 (every case builds its input with it)',
-    'LinearSpace.h LinearSpace3::<constructor> void (const QuaternionT<rkcommon::math::LinearSpace3::Scalar> &)':
-        'rot',
-    'LinearSpace.h LinearSpace3::<constructor> void (const rkcommon::math::LinearSpace3::Scalar &, const rkcommon::math::LinearSpace3::Scalar &, const rkcommon::math::LinearSpace3::Scalar &, const rkcommon::math::LinearSpace3::Scalar &, const rkcommon::math::LinearSpace3::Scalar &, const rkcommon::math::LinearSpace3::Scalar &, const rkcommon::math::LinearSpace3::Scalar &, const rkcommon::math::LinearSpace3::Scalar &, const rkcommon::math::LinearSpace3::Scalar &)':
-        'l3 (transposed/scale/rotate use the row-major constructor)',
-    'LinearSpace.h LinearSpace3::det const rkcommon::math::LinearSpace3::Scalar () const':
-        'l3',
-    'LinearSpace.h LinearSpace3::adjoint const LinearSpace3<T> () const':
-        'l3',
-    'LinearSpace.h LinearSpace3::inverse const LinearSpace3<T> () const':
-        'l3',
-    'LinearSpace.h LinearSpace3::transposed const LinearSpace3<T> () const':
-        'l3',
-    'LinearSpace.h LinearSpace3::row0 const rkcommon::math::LinearSpace3::Vector () const':
-        'l3',
-    'LinearSpace.h LinearSpace3::row1 const rkcommon::math::LinearSpace3::Vector () const':
-        'l3',
-    'LinearSpace.h LinearSpace3::row2 const rkcommon::math::LinearSpace3::Vector () const':
-        'l3',
-    'LinearSpace.h LinearSpace3::<constructor> void (rkcommon::math::ZeroTy)':
-        'ol3',
-    'LinearSpace.h LinearSpace3::<constructor> void (rkcommon::math::OneTy)':
-        'ol3',
-    'LinearSpace.h LinearSpace3::scale LinearSpace3<T> (const rkcommon::math::LinearSpace3::Vector &)':
-        'l3',
-    'LinearSpace.h LinearSpace3::rotate LinearSpace3<T> (const rkcommon::math::LinearSpace3::Vector &, const rkcommon::math::LinearSpace3::Scalar &)':
-        'rot',
-    'LinearSpace.h operator- LinearSpace3<T> (const LinearSpace3<T> &)':
-        'oa3 (-a)',
-    'LinearSpace.h operator+ LinearSpace3<T> (const LinearSpace3<T> &)':
-        'ol3',
-    'LinearSpace.h rcp LinearSpace3<T> (const LinearSpace3<T> &)':
-        'a3',
-    'LinearSpace.h frame LinearSpace3<T> (const T &)':
-        'frm',
-    'LinearSpace.h frame LinearSpace3<T> (const T &, const T &)':
-        'frm',
-    'LinearSpace.h clamp LinearSpace3<T> (const LinearSpace3<T> &)':
-        'ol3',
-    'LinearSpace.h operator+ LinearSpace3<T> (const LinearSpace3<T> &, const LinearSpace3<T> &)':
-        'oa3 (a + b, a - b)',
-    'LinearSpace.h operator- LinearSpace3<T> (const LinearSpace3<T> &, const LinearSpace3<T> &)':
-        'oa3 (a + b, a - b)',
-    'LinearSpace.h operator* LinearSpace3<T> (const typename T::Scalar &, const LinearSpace3<T> &)':
-        'oa3 (s * a)',
-    'LinearSpace.h operator* T (const LinearSpace3<T> &, const T &)':
-        'l3',
-    'LinearSpace.h operator* LinearSpace3<T> (const LinearSpace3<T> &, const LinearSpace3<T> &)':
-        'l3',
-    'LinearSpace.h operator/ LinearSpace3<T> (const LinearSpace3<T> &, const typename T::Scalar &)':
-        'l3 (inverse = adjoint / det)',
-    'LinearSpace.h operator/ LinearSpace3<T> (const LinearSpace3<T> &, const LinearSpace3<T> &)':
-        'ol3',
-    'LinearSpace.h operator*= LinearSpace3<T> &(LinearSpace3<T> &, const LinearSpace3<T> &)':
-        'ol3',
-    'LinearSpace.h operator/= LinearSpace3<T> &(LinearSpace3<T> &, const LinearSpace3<T> &)':
-        'ol3',
-    'LinearSpace.h xfmPoint T (const LinearSpace3<T> &, const T &)':
-        'l3',
-    'LinearSpace.h xfmVector T (const LinearSpace3<T> &, const T &)':
-        'l3',
-    'LinearSpace.h xfmNormal T (const LinearSpace3<T> &, const T &)':
-        'l3',
-    'LinearSpace.h operator== bool (const LinearSpace3<T> &, const LinearSpace3<T> &)':
-        'ol3 + ocv (single-entry perturbations)',
-    'LinearSpace.h operator!= bool (const LinearSpace3<T> &, const LinearSpace3<T> &)':
-        'ol3 + ocv (single-entry perturbations)',
-    'LinearSpace.h operator<< std::ostream &(std::ostream &, const LinearSpace3<T> &)':
-        'ocv (printed text parsed back)',
-    'Quaternion.h QuaternionT::<constructor> void (const QuaternionT<T, type-parameter-0-1> &)':
-        'oq (Q c = a)',
-    'Quaternion.h QuaternionT::operator= QuaternionT<T, type-parameter-0-1> &(const QuaternionT<T, type-parameter-0-1> &)':
-        'oq (inside c += s) + theorem assign_operators',
-    'Quaternion.h QuaternionT::<constructor> void (const T &)':
-        'oq',
-    'Quaternion.h QuaternionT::<constructor> void (const rkcommon::math::QuaternionT::Vector &)':
-        'q (inside a * v)',
-    'Quaternion.h QuaternionT::<constructor> void (const T &, const T &, const T &, const T &)':
-        'q (every case builds its input with it)',
-    'Quaternion.h QuaternionT::<constructor> void (const T &, const rkcommon::math::QuaternionT::Vector &)':
-        'qr, rot (inside Quaternion::rotate)',
-    'Quaternion.h QuaternionT::<constructor> void (const rkcommon::math::QuaternionT::Vector &, const rkcommon::math::QuaternionT::Vector &, const rkcommon::math::QuaternionT::Vector &)':
-        'qf, rot (declaration; the body is the out-of-line definition below)',
-    'Quaternion.h QuaternionT::<constructor> void (const T &, const T &, const T &)':
-        'ypr (declaration; the body is the out-of-line definition below)',
-    'Quaternion.h QuaternionT::<constructor> void (rkcommon::math::ZeroTy)':
-        'oq',
-    'Quaternion.h QuaternionT::<constructor> void (rkcommon::math::OneTy)':
-        'oq',
-    'Quaternion.h QuaternionT::rotate QuaternionT<T, type-parameter-0-1> (const rkcommon::math::QuaternionT::Vector &, const T &)':
-        'qr, rot',
-    'Quaternion.h QuaternionT::v const rkcommon::math::QuaternionT::Vector () const':
-        'q (inside a * v)',
-    'Quaternion.h operator* QuaternionT<T> (const T &, const QuaternionT<T> &)':
-        'sl (fa * a), oq',
-    'Quaternion.h operator* QuaternionT<T> (const QuaternionT<T> &, const T &)':
-        'q (normalize, rcp), oq',
-    'Quaternion.h operator* auto (const T &, const QuaternionT<U> &) -> QuaternionT<decltype(T() * U())>':
-        'oq (double flavour: float * quaterniond), sl double (lerp)',
-    'Quaternion.h operator* auto (const QuaternionT<T> &, const U &) -> QuaternionT<decltype(T() * U())>':
-        'oq (double flavour: quaterniond * float)',
-    'Quaternion.h operator+ QuaternionT<T> (const QuaternionT<T> &)':
-        'oq, sl (-a)',
-    'Quaternion.h operator- QuaternionT<T> (const QuaternionT<T> &)':
-        'oq, sl (-a)',
-    'Quaternion.h conj QuaternionT<T> (const QuaternionT<T> &)':
-        'q',
-    'Quaternion.h abs T (const QuaternionT<T> &)':
-        'oq + theorem quat_abs_and_rotate_wrapper',
-    'Quaternion.h rcp QuaternionT<T> (const QuaternionT<T> &)':
-        'q',
-    'Quaternion.h dot T (const QuaternionT<T> &, const QuaternionT<T> &)':
-        'sl',
-    'Quaternion.h normalize QuaternionT<T> (const QuaternionT<T> &)':
-        'q',
-    'Quaternion.h operator+ QuaternionT<T> (const T &, const QuaternionT<T> &)':
-        'oq',
-    'Quaternion.h operator+ QuaternionT<T> (const QuaternionT<T> &, const T &)':
-        'oq',
-    'Quaternion.h operator+ QuaternionT<T> (const QuaternionT<T> &, const QuaternionT<T> &)':
-        'sl, oq',
-    'Quaternion.h operator- QuaternionT<T> (const T &, const QuaternionT<T> &)':
-        'oq',
-    'Quaternion.h operator- QuaternionT<T> (const QuaternionT<T> &, const T &)':
-        'oq',
-    'Quaternion.h operator- QuaternionT<T> (const QuaternionT<T> &, const QuaternionT<T> &)':
-        'oq (c -= b)',
-    'Quaternion.h operator* typename QuaternionT<T>::Vector (const QuaternionT<T> &, const typename QuaternionT<T>::Vector &)':
-        'q',
-    'Quaternion.h operator* QuaternionT<T> (const QuaternionT<T> &, const QuaternionT<T> &)':
-        'q',
-    'Quaternion.h operator/ QuaternionT<T> (const T &, const QuaternionT<T> &)':
-        'oq',
-    'Quaternion.h operator/ QuaternionT<T> (const QuaternionT<T> &, const T &)':
-        'oq',
-    'Quaternion.h operator/ QuaternionT<T> (const QuaternionT<T> &, const QuaternionT<T> &)':
-        'oq',
-    'Quaternion.h operator+= QuaternionT<T> &(QuaternionT<T> &, const T &)':
-        'oq',
-    'Quaternion.h operator+= QuaternionT<T> &(QuaternionT<T> &, const QuaternionT<T> &)':
-        'oq',
-    'Quaternion.h operator-= QuaternionT<T> &(QuaternionT<T> &, const T &)':
-        'oq',
-    'Quaternion.h operator-= QuaternionT<T> &(QuaternionT<T> &, const QuaternionT<T> &)':
-        'oq',
-    'Quaternion.h operator*= QuaternionT<T> &(QuaternionT<T> &, const T &)':
-        'oq',
-    'Quaternion.h operator*= QuaternionT<T> &(QuaternionT<T> &, const QuaternionT<T> &)':
-        'oq',
-    'Quaternion.h operator/= QuaternionT<T> &(QuaternionT<T> &, const T &)':
-        'oq',
-    'Quaternion.h operator/= QuaternionT<T> &(QuaternionT<T> &, const QuaternionT<T> &)':
-        'oq',
-    'Quaternion.h xfmPoint typename QuaternionT<T>::Vector (const QuaternionT<T> &, const typename QuaternionT<T>::Vector &)':
-        'q (same body as a * v) + theorem quat_xfm_aliases',
-    'Quaternion.h xfmQuaternion QuaternionT<T> (const QuaternionT<T> &, const QuaternionT<T> &)':
-        'oq',
-    'Quaternion.h xfmNormal typename QuaternionT<T>::Vector (const QuaternionT<T> &, const typename QuaternionT<T>::Vector &)':
-        'oq',
-    'Quaternion.h operator== bool (const QuaternionT<T> &, const QuaternionT<T> &)':
-        'oq + ocv (single-entry perturbations)',
-    'Quaternion.h operator!= bool (const QuaternionT<T> &, const QuaternionT<T> &)':
-        'oq + ocv (single-entry perturbations)',
-    'Quaternion.h <constructor> void (const typename QuaternionT<T, U>::Vector &, const typename QuaternionT<T, U>::Vector &, const typename QuaternionT<T, U>::Vector &)':
-        'qf, rot',
-    'Quaternion.h <constructor> void (const T &, const T &, const T &)':
-        'ypr',
-    'Quaternion.h operator<< std::ostream &(std::ostream &, const QuaternionT<T> &)':
-        'ocv (printed text parsed back)',
-    'Quaternion.h slerp QuaternionT<T> (const float, const QuaternionT<T> &, const QuaternionT<T> &)':
-        'sl',
+    'AffineSpace.h AffineSpaceT::<constructor> void (const AffineSpaceT<L> &)': {
+        'ops': ['oa3'], 'theorems': [],
+        'how': 'oa3 (A c = a)'},
+    'AffineSpace.h AffineSpaceT::<constructor> void (const L &)': {
+        'ops': ['r2', 'rot'], 'theorems': [],
+        'how': 'r2 / rot (rotate returns L converted to AffineSpaceT)'},
+    'AffineSpace.h AffineSpaceT::operator= AffineSpaceT<L> &(const AffineSpaceT<L> &)': {
+        'ops': ['oa3'], 'theorems': ['assign_operators'],
+        'how': 'oa3'},
+    'AffineSpace.h AffineSpaceT::<constructor> void (const typename L::Vector &, const typename L::Vector &, const typename L::Vector &, const typename L::Vector &)': {
+        'ops': ['oa3'], 'theorems': ['constants_def'],
+        'how': 'oa3'},
+    'AffineSpace.h AffineSpaceT::<constructor> void (const L &, const typename L::Vector &)': {
+        'ops': ['a3'], 'theorems': [],
+        'how': 'a3 (every case builds its input with it)'},
+    'AffineSpace.h AffineSpaceT::<constructor> void (const AffineSpaceT<L1> &)': {
+        'ops': ['ocv', 'ocx', 'ocx2'], 'theorems': ['convert_affine_padded_to_plain'],
+        'how': 'ocv (padded -> plain) + theorem convert_affine_padded_to_plain'},
+    'AffineSpace.h AffineSpaceT::operator type-parameter-0-0 * L *()': {
+        'ops': ['ocv', 'ocx', 'ocx2'], 'theorems': [],
+        'how': 'ocv (pointer view of the linear part; pointers are outside the translated subset)'},
+    'AffineSpace.h AffineSpaceT::operator const type-parameter-0-0 * const L *() const': {
+        'ops': ['ocv', 'ocx', 'ocx2'], 'theorems': [],
+        'how': 'ocv (pointer view of the linear part; pointers are outside the translated subset)'},
+    'AffineSpace.h AffineSpaceT::<constructor> void (rkcommon::math::ZeroTy)': {
+        'ops': ['oa3'], 'theorems': ['constants_def', 'quat_scalar_operators'],
+        'how': 'oa3'},
+    'AffineSpace.h AffineSpaceT::<constructor> void (rkcommon::math::OneTy)': {
+        'ops': ['oa3'], 'theorems': ['constants_def', 'quat_scalar_operators'],
+        'how': 'oa3'},
+    'AffineSpace.h AffineSpaceT::scale AffineSpaceT<L> (const typename L::Vector &)': {
+        'ops': ['a3', 'f2'], 'theorems': ['scale_def', 'affine2_factories_def'],
+        'how': 'a3 ; f2 (2D factories)'},
+    'AffineSpace.h AffineSpaceT::translate AffineSpaceT<L> (const typename L::Vector &)': {
+        'ops': ['a3', 'f2'], 'theorems': ['translate_def', 'affine2_factories_def'],
+        'how': 'a3 ; f2 (2D factories)'},
+    'AffineSpace.h AffineSpaceT::rotate AffineSpaceT<L> (const typename L::Vector::Scalar &)': {
+        'ops': ['r2', 'f2'], 'theorems': ['affine2_factories_def', 'rotate2_about_point_fixes_p'],
+        'how': 'r2 (inside rotate(p, r)) ; f2 (2D factories)'},
+    'AffineSpace.h AffineSpaceT::rotate AffineSpaceT<L> (const typename L::Vector &, const typename L::Vector::Scalar &)': {
+        'ops': ['rot'], 'theorems': ['rotate_about_point_fixes_p'],
+        'how': 'rot (inside rotate(p,u,r))'},
+    'AffineSpace.h AffineSpaceT::rotate AffineSpaceT<L> (const QuaternionT<typename L::Vector::Scalar> &)': {
+        'ops': ['ocv', 'q', 'rot'], 'theorems': ['quat_abs_and_rotate_wrapper'],
+        'how': 'ocv + theorem quat_abs_and_rotate_wrapper (LinearSpace3(q) itself: rot)'},
+    'AffineSpace.h AffineSpaceT::rotate AffineSpaceT<L> (const typename L::Vector &, const typename L::Vector &, const typename L::Vector::Scalar &)': {
+        'ops': ['rot'], 'theorems': ['rotate_about_point_fixes_p'],
+        'how': 'rot'},
+    'AffineSpace.h AffineSpaceT::lookat AffineSpaceT<L> (const typename L::Vector &, const typename L::Vector &, const typename L::Vector &)': {
+        'ops': ['look'], 'theorems': ['lookat_axes'],
+        'how': 'look'},
+    'AffineSpace.h operator- AffineSpaceT<L> (const AffineSpaceT<L> &)': {
+        'ops': ['oa3'], 'theorems': ['unary_operators'],
+        'how': 'oa3'},
+    'AffineSpace.h operator+ AffineSpaceT<L> (const AffineSpaceT<L> &)': {
+        'ops': ['oa3'], 'theorems': ['unary_operators'],
+        'how': 'oa3'},
+    'AffineSpace.h rcp AffineSpaceT<L> (const AffineSpaceT<L> &)': {
+        'ops': ['a3', 'a2'], 'theorems': ['affine_rcp_mul'],
+        'how': 'a3, a2'},
+    'AffineSpace.h operator+ AffineSpaceT<L> (const AffineSpaceT<L> &, const AffineSpaceT<L> &)': {
+        'ops': ['oa3'], 'theorems': ['affine_sum_difference_scalar'],
+        'how': 'oa3'},
+    'AffineSpace.h operator- AffineSpaceT<L> (const AffineSpaceT<L> &, const AffineSpaceT<L> &)': {
+        'ops': ['oa3'], 'theorems': ['affine_sum_difference_scalar'],
+        'how': 'oa3'},
+    'AffineSpace.h operator* AffineSpaceT<L> (const typename L::Vector::Scalar &, const AffineSpaceT<L> &)': {
+        'ops': ['oa3'], 'theorems': ['affine_sum_difference_scalar'],
+        'how': 'oa3'},
+    'AffineSpace.h operator* AffineSpaceT<L> (const AffineSpaceT<L> &, const AffineSpaceT<L> &)': {
+        'ops': ['a3', 'a2'], 'theorems': ['compose_apply', 'affine_rcp_mul'],
+        'how': 'a3, a2'},
+    'AffineSpace.h operator/ AffineSpaceT<L> (const AffineSpaceT<L> &, const AffineSpaceT<L> &)': {
+        'ops': ['oa3'], 'theorems': ['division_def', 'division_undoes_product'],
+        'how': 'oa3'},
+    'AffineSpace.h operator*= AffineSpaceT<L> &(AffineSpaceT<L> &, const AffineSpaceT<L> &)': {
+        'ops': ['oa3', 'oa2'], 'theorems': ['compound_assign_affine', 'compound_assign_affine_apply'],
+        'how': 'oa3, oa2'},
+    'AffineSpace.h operator/= AffineSpaceT<L> &(AffineSpaceT<L> &, const AffineSpaceT<L> &)': {
+        'ops': ['oa3'], 'theorems': ['compound_assign_affine', 'compound_assign_affine_apply'],
+        'how': 'oa3'},
+    'AffineSpace.h xfmPoint const typename L::Vector (const AffineSpaceT<L> &, const typename L::Vector &)': {
+        'ops': ['a3'], 'theorems': ['xfmPoint_def', 'compose_apply'],
+        'how': 'a3'},
+    'AffineSpace.h xfmVector const typename L::Vector (const AffineSpaceT<L> &, const typename L::Vector &)': {
+        'ops': ['a3'], 'theorems': ['xfmVector_def'],
+        'how': 'a3'},
+    'AffineSpace.h xfmNormal const typename L::Vector (const AffineSpaceT<L> &, const typename L::Vector &)': {
+        'ops': ['a3'], 'theorems': ['xfmNormal_def'],
+        'how': 'a3'},
+    'AffineSpace.h operator== bool (const AffineSpaceT<L> &, const AffineSpaceT<L> &)': {
+        'ops': ['oa3', 'ocv', 'ocx', 'ocx2'], 'theorems': ['comparison_affine'],
+        'how': 'oa3 + ocv (single-entry perturbations)'},
+    'AffineSpace.h operator!= bool (const AffineSpaceT<L> &, const AffineSpaceT<L> &)': {
+        'ops': ['oa3', 'ocv', 'ocx', 'ocx2'], 'theorems': ['comparison_affine'],
+        'how': 'oa3 + ocv (single-entry perturbations)'},
+    'AffineSpace.h operator<< std::ostream &(std::ostream &, const AffineSpaceT<L> &)': {
+        'ops': ['ocv', 'ocx', 'ocx2'], 'theorems': [],
+        'how': 'ocv (printed text parsed back)'},
+    'AffineSpace.h rotate rkcommon::math::AffineSpace2f (const rkcommon::math::vec2f &, const float &)': {
+        'ops': ['r2'], 'theorems': ['rotate2_about_point_fixes_p'],
+        'how': 'r2'},
+    'LinearSpace.h LinearSpace2::<constructor> void (const LinearSpace2<T> &)': {
+        'ops': ['ol2'], 'theorems': [],
+        'how': 'ol2 (L c = a)'},
+    'LinearSpace.h LinearSpace2::operator= LinearSpace2<T> &(const LinearSpace2<T> &)': {
+        'ops': ['ol2'], 'theorems': ['assign_operators'],
+        'how': 'ol2 (inside c *= b) + theorem assign_operators'},
+    'LinearSpace.h LinearSpace2::<constructor> void (const LinearSpace2<L1> &)': {
+        'ops': ['ocv', 'ocx2'], 'theorems': ['convert_padded_to_plain', 'convert_plain_to_padded', 'convert_double_to_float_2x2'],
+        'how': 'ocv (from vec2d) + theorem convert_double_to_float_2x2'},
+    'LinearSpace.h LinearSpace2::<constructor> void (const rkcommon::math::LinearSpace2::Vector &, const rkcommon::math::LinearSpace2::Vector &)': {
+        'ops': ['l2'], 'theorems': [],
+        'how': 'l2 (every case builds its input with it)'},
+    'LinearSpace.h LinearSpace2::<constructor> void (const rkcommon::math::LinearSpace2::Scalar &, const rkcommon::math::LinearSpace2::Scalar &, const rkcommon::math::LinearSpace2::Scalar &, const rkcommon::math::LinearSpace2::Scalar &)': {
+        'ops': ['l2'], 'theorems': [],
+        'how': 'l2 (adjoint/transposed/scale use the row-major constructor)'},
+    'LinearSpace.h LinearSpace2::det const rkcommon::math::LinearSpace2::Scalar () const': {
+        'ops': ['l2'], 'theorems': ['det2_mul', 'det3_mul'],
+        'how': 'l2'},
+    'LinearSpace.h LinearSpace2::adjoint const LinearSpace2<T> () const': {
+        'ops': ['l2'], 'theorems': ['adjoint3_def'],
+        'how': 'l2'},
+    'LinearSpace.h LinearSpace2::inverse const LinearSpace2<T> () const': {
+        'ops': ['l2'], 'theorems': ['inverse2_mul', 'inverse3_mul'],
+        'how': 'l2'},
+    'LinearSpace.h LinearSpace2::transposed const LinearSpace2<T> () const': {
+        'ops': ['l2'], 'theorems': ['transposed3_def'],
+        'how': 'l2'},
+    'LinearSpace.h LinearSpace2::row0 const rkcommon::math::LinearSpace2::Vector () const': {
+        'ops': ['l2'], 'theorems': ['rows3_def'],
+        'how': 'l2'},
+    'LinearSpace.h LinearSpace2::row1 const rkcommon::math::LinearSpace2::Vector () const': {
+        'ops': ['l2'], 'theorems': ['rows3_def'],
+        'how': 'l2'},
+    'LinearSpace.h LinearSpace2::<constructor> void (rkcommon::math::ZeroTy)': {
+        'ops': ['ol2'], 'theorems': ['constants_def', 'quat_scalar_operators'],
+        'how': 'ol2'},
+    'LinearSpace.h LinearSpace2::<constructor> void (rkcommon::math::OneTy)': {
+        'ops': ['ol2'], 'theorems': ['constants_def', 'quat_scalar_operators'],
+        'how': 'ol2'},
+    'LinearSpace.h LinearSpace2::scale LinearSpace2<T> (const rkcommon::math::LinearSpace2::Vector &)': {
+        'ops': ['l2', 'f2'], 'theorems': ['scale_def', 'affine2_factories_def'],
+        'how': 'l2 ; f2 (2D factories)'},
+    'LinearSpace.h LinearSpace2::rotate LinearSpace2<T> (const rkcommon::math::LinearSpace2::Scalar &)': {
+        'ops': ['r2', 'f2'], 'theorems': ['rotate2_def'],
+        'how': 'r2 ; f2 (2D factories)'},
+    'LinearSpace.h LinearSpace2::orthogonal LinearSpace2<T> () const': {
+        'ops': ['o2'], 'theorems': ['orthogonal_fixpoint', 'ortho_step_det_pos', 'ortho_step_polar', 'ortho_iter_polar', 'orthogonal_mirror', 'orthogonal_mirror_old_refuted'],
+        'how': 'o2'},
+    'LinearSpace.h operator- LinearSpace2<T> (const LinearSpace2<T> &)': {
+        'ops': ['o2'], 'theorems': ['unary_operators'],
+        'how': 'o2 step model / theorem unary_operators'},
+    'LinearSpace.h operator+ LinearSpace2<T> (const LinearSpace2<T> &)': {
+        'ops': ['ol2'], 'theorems': ['unary_operators'],
+        'how': 'ol2'},
+    'LinearSpace.h rcp LinearSpace2<T> (const LinearSpace2<T> &)': {
+        'ops': ['a2', 'ol2'], 'theorems': ['division_def', 'inverse2_mul', 'inverse3_mul'],
+        'how': 'a2 (rcp of an affine map) + ol2 (a / b)'},
+    'LinearSpace.h operator+ LinearSpace2<T> (const LinearSpace2<T> &, const LinearSpace2<T> &)': {
+        'ops': ['o2'], 'theorems': ['unary_operators', 'affine_sum_difference_scalar'],
+        'how': 'o2 (step: m + m^-T, m_next - m)'},
+    'LinearSpace.h operator- LinearSpace2<T> (const LinearSpace2<T> &, const LinearSpace2<T> &)': {
+        'ops': ['o2'], 'theorems': ['unary_operators', 'affine_sum_difference_scalar'],
+        'how': 'o2 (step: m + m^-T, m_next - m)'},
+    'LinearSpace.h operator* LinearSpace2<T> (const typename T::Scalar &, const LinearSpace2<T> &)': {
+        'ops': ['o2'], 'theorems': ['affine_sum_difference_scalar', 'adjoint3_def'],
+        'how': 'o2 (0.5 * ...)'},
+    'LinearSpace.h operator* T (const LinearSpace2<T> &, const T &)': {
+        'ops': ['l2'], 'theorems': ['compose_apply', 'xfmVector_def', 'rotate3_rodrigues'],
+        'how': 'l2'},
+    'LinearSpace.h operator* LinearSpace2<T> (const LinearSpace2<T> &, const LinearSpace2<T> &)': {
+        'ops': ['l2'], 'theorems': ['det2_mul', 'det3_mul', 'inverse2_mul', 'inverse3_mul'],
+        'how': 'l2'},
+    'LinearSpace.h operator/ LinearSpace2<T> (const LinearSpace2<T> &, const typename T::Scalar &)': {
+        'ops': ['l2'], 'theorems': ['inverse2_mul', 'inverse3_mul'],
+        'how': 'l2 (inverse = adjoint / det)'},
+    'LinearSpace.h operator/ LinearSpace2<T> (const LinearSpace2<T> &, const LinearSpace2<T> &)': {
+        'ops': ['ol2'], 'theorems': ['division_def', 'division_undoes_product'],
+        'how': 'ol2'},
+    'LinearSpace.h operator*= LinearSpace2<T> &(LinearSpace2<T> &, const LinearSpace2<T> &)': {
+        'ops': ['ol2'], 'theorems': ['compound_assign_linear'],
+        'how': 'ol2'},
+    'LinearSpace.h operator/= LinearSpace2<T> &(LinearSpace2<T> &, const LinearSpace2<T> &)': {
+        'ops': ['ol2'], 'theorems': ['compound_assign_linear'],
+        'how': 'ol2'},
+    'LinearSpace.h operator== bool (const LinearSpace2<T> &, const LinearSpace2<T> &)': {
+        'ops': ['ol2', 'ocv', 'ocx2'], 'theorems': ['comparison_linear2'],
+        'how': 'ol2 + ocv (single-entry perturbations)'},
+    'LinearSpace.h operator!= bool (const LinearSpace2<T> &, const LinearSpace2<T> &)': {
+        'ops': ['ol2', 'ocv', 'ocx2'], 'theorems': ['comparison_linear2'],
+        'how': 'ol2 + ocv (single-entry perturbations)'},
+    'LinearSpace.h operator<< std::ostream &(std::ostream &, const LinearSpace2<T> &)': {
+        'ops': ['ocv', 'ocx2'], 'theorems': [],
+        'how': 'ocv (printed text parsed back)'},
+    'LinearSpace.h LinearSpace3::<constructor> void (const LinearSpace3<T> &)': {
+        'ops': ['ol3'], 'theorems': [],
+        'how': 'ol3 (L c = a)'},
+    'LinearSpace.h LinearSpace3::operator= LinearSpace3<T> &(const LinearSpace3<T> &)': {
+        'ops': ['ol3'], 'theorems': ['assign_operators'],
+        'how': 'ol3 (inside c *= b) + theorem assign_operators'},
+    'LinearSpace.h LinearSpace3::<constructor> void (const LinearSpace3<L1> &)': {
+        'ops': ['ocv', 'ocx'], 'theorems': ['convert_padded_to_plain', 'convert_plain_to_padded', 'convert_double_to_float_2x2'],
+        'how': 'ocv (vec3fa <-> vec3f) + theorems convert_*'},
+    'LinearSpace.h LinearSpace3::<constructor> void (const rkcommon::math::LinearSpace3::Vector &, const rkcommon::math::LinearSpace3::Vector &, const rkcommon::math::LinearSpace3::Vector &)': {
+        'ops': ['l3'], 'theorems': [],
+        'how': 'l3 (every case builds its input with it)'},
+    'LinearSpace.h LinearSpace3::<constructor> void (const QuaternionT<rkcommon::math::LinearSpace3::Scalar> &)': {
+        'ops': ['rot'], 'theorems': ['quat_to_matrix_apply', 'quat_matrix_is_rotation', 'quat_rotate_matches_matrix'],
+        'how': 'rot'},
+    'LinearSpace.h LinearSpace3::<constructor> void (const rkcommon::math::LinearSpace3::Scalar &, const rkcommon::math::LinearSpace3::Scalar &, const rkcommon::math::LinearSpace3::Scalar &, const rkcommon::math::LinearSpace3::Scalar &, const rkcommon::math::LinearSpace3::Scalar &, const rkcommon::math::LinearSpace3::Scalar &, const rkcommon::math::LinearSpace3::Scalar &, const rkcommon::math::LinearSpace3::Scalar &, const rkcommon::math::LinearSpace3::Scalar &)': {
+        'ops': ['l3'], 'theorems': [],
+        'how': 'l3 (transposed/scale/rotate use the row-major constructor)'},
+    'LinearSpace.h LinearSpace3::det const rkcommon::math::LinearSpace3::Scalar () const': {
+        'ops': ['l3'], 'theorems': ['det2_mul', 'det3_mul'],
+        'how': 'l3'},
+    'LinearSpace.h LinearSpace3::adjoint const LinearSpace3<T> () const': {
+        'ops': ['l3'], 'theorems': ['adjoint3_def'],
+        'how': 'l3'},
+    'LinearSpace.h LinearSpace3::inverse const LinearSpace3<T> () const': {
+        'ops': ['l3'], 'theorems': ['inverse2_mul', 'inverse3_mul'],
+        'how': 'l3'},
+    'LinearSpace.h LinearSpace3::transposed const LinearSpace3<T> () const': {
+        'ops': ['l3'], 'theorems': ['transposed3_def'],
+        'how': 'l3'},
+    'LinearSpace.h LinearSpace3::row0 const rkcommon::math::LinearSpace3::Vector () const': {
+        'ops': ['l3'], 'theorems': ['rows3_def'],
+        'how': 'l3'},
+    'LinearSpace.h LinearSpace3::row1 const rkcommon::math::LinearSpace3::Vector () const': {
+        'ops': ['l3'], 'theorems': ['rows3_def'],
+        'how': 'l3'},
+    'LinearSpace.h LinearSpace3::row2 const rkcommon::math::LinearSpace3::Vector () const': {
+        'ops': ['l3'], 'theorems': ['rows3_def'],
+        'how': 'l3'},
+    'LinearSpace.h LinearSpace3::<constructor> void (rkcommon::math::ZeroTy)': {
+        'ops': ['ol3'], 'theorems': ['constants_def', 'quat_scalar_operators'],
+        'how': 'ol3'},
+    'LinearSpace.h LinearSpace3::<constructor> void (rkcommon::math::OneTy)': {
+        'ops': ['ol3'], 'theorems': ['constants_def', 'quat_scalar_operators'],
+        'how': 'ol3'},
+    'LinearSpace.h LinearSpace3::scale LinearSpace3<T> (const rkcommon::math::LinearSpace3::Vector &)': {
+        'ops': ['l3'], 'theorems': ['scale_def', 'affine2_factories_def'],
+        'how': 'l3'},
+    'LinearSpace.h LinearSpace3::rotate LinearSpace3<T> (const rkcommon::math::LinearSpace3::Vector &, const rkcommon::math::LinearSpace3::Scalar &)': {
+        'ops': ['rot'], 'theorems': ['rotate3_rodrigues', 'rotate3_orthogonal', 'rotate3_det_one', 'rotate3_fixes_axis', 'rotate3_angle'],
+        'how': 'rot'},
+    'LinearSpace.h operator- LinearSpace3<T> (const LinearSpace3<T> &)': {
+        'ops': ['oa3'], 'theorems': ['unary_operators'],
+        'how': 'oa3 (-a)'},
+    'LinearSpace.h operator+ LinearSpace3<T> (const LinearSpace3<T> &)': {
+        'ops': ['ol3'], 'theorems': ['unary_operators'],
+        'how': 'ol3'},
+    'LinearSpace.h rcp LinearSpace3<T> (const LinearSpace3<T> &)': {
+        'ops': ['a3'], 'theorems': ['division_def', 'inverse2_mul', 'inverse3_mul'],
+        'how': 'a3'},
+    'LinearSpace.h frame LinearSpace3<T> (const T &)': {
+        'ops': ['frm'], 'theorems': ['frame_orthonormal'],
+        'how': 'frm'},
+    'LinearSpace.h frame LinearSpace3<T> (const T &, const T &)': {
+        'ops': ['frm'], 'theorems': ['frame_up_orthonormal', 'frame_up_one_sided_refuted'],
+        'how': 'frm'},
+    'LinearSpace.h clamp LinearSpace3<T> (const LinearSpace3<T> &)': {
+        'ops': ['ol3'], 'theorems': ['clamp_linear3_def'],
+        'how': 'ol3'},
+    'LinearSpace.h operator+ LinearSpace3<T> (const LinearSpace3<T> &, const LinearSpace3<T> &)': {
+        'ops': ['oa3'], 'theorems': ['unary_operators', 'affine_sum_difference_scalar'],
+        'how': 'oa3 (a + b, a - b)'},
+    'LinearSpace.h operator- LinearSpace3<T> (const LinearSpace3<T> &, const LinearSpace3<T> &)': {
+        'ops': ['oa3'], 'theorems': ['unary_operators', 'affine_sum_difference_scalar'],
+        'how': 'oa3 (a + b, a - b)'},
+    'LinearSpace.h operator* LinearSpace3<T> (const typename T::Scalar &, const LinearSpace3<T> &)': {
+        'ops': ['oa3'], 'theorems': ['affine_sum_difference_scalar', 'adjoint3_def'],
+        'how': 'oa3 (s * a)'},
+    'LinearSpace.h operator* T (const LinearSpace3<T> &, const T &)': {
+        'ops': ['l3'], 'theorems': ['compose_apply', 'xfmVector_def', 'rotate3_rodrigues'],
+        'how': 'l3'},
+    'LinearSpace.h operator* LinearSpace3<T> (const LinearSpace3<T> &, const LinearSpace3<T> &)': {
+        'ops': ['l3'], 'theorems': ['det2_mul', 'det3_mul', 'inverse2_mul', 'inverse3_mul'],
+        'how': 'l3'},
+    'LinearSpace.h operator/ LinearSpace3<T> (const LinearSpace3<T> &, const typename T::Scalar &)': {
+        'ops': ['l3'], 'theorems': ['inverse2_mul', 'inverse3_mul'],
+        'how': 'l3 (inverse = adjoint / det)'},
+    'LinearSpace.h operator/ LinearSpace3<T> (const LinearSpace3<T> &, const LinearSpace3<T> &)': {
+        'ops': ['ol3'], 'theorems': ['division_def', 'division_undoes_product'],
+        'how': 'ol3'},
+    'LinearSpace.h operator*= LinearSpace3<T> &(LinearSpace3<T> &, const LinearSpace3<T> &)': {
+        'ops': ['ol3'], 'theorems': ['compound_assign_linear'],
+        'how': 'ol3'},
+    'LinearSpace.h operator/= LinearSpace3<T> &(LinearSpace3<T> &, const LinearSpace3<T> &)': {
+        'ops': ['ol3'], 'theorems': ['compound_assign_linear'],
+        'how': 'ol3'},
+    'LinearSpace.h xfmPoint T (const LinearSpace3<T> &, const T &)': {
+        'ops': ['l3'], 'theorems': ['xfmVector_def'],
+        'how': 'l3'},
+    'LinearSpace.h xfmVector T (const LinearSpace3<T> &, const T &)': {
+        'ops': ['l3'], 'theorems': ['xfmVector_def'],
+        'how': 'l3'},
+    'LinearSpace.h xfmNormal T (const LinearSpace3<T> &, const T &)': {
+        'ops': ['l3'], 'theorems': ['xfmNormal_def'],
+        'how': 'l3'},
+    'LinearSpace.h operator== bool (const LinearSpace3<T> &, const LinearSpace3<T> &)': {
+        'ops': ['ol3', 'ocv', 'ocx'], 'theorems': ['comparison_linear3'],
+        'how': 'ol3 + ocv (single-entry perturbations)'},
+    'LinearSpace.h operator!= bool (const LinearSpace3<T> &, const LinearSpace3<T> &)': {
+        'ops': ['ol3', 'ocv', 'ocx'], 'theorems': ['comparison_linear3'],
+        'how': 'ol3 + ocv (single-entry perturbations)'},
+    'LinearSpace.h operator<< std::ostream &(std::ostream &, const LinearSpace3<T> &)': {
+        'ops': ['ocv', 'ocx'], 'theorems': [],
+        'how': 'ocv (printed text parsed back)'},
+    'Quaternion.h QuaternionT::<constructor> void (const QuaternionT<T, type-parameter-0-1> &)': {
+        'ops': ['oq'], 'theorems': [],
+        'how': 'oq (Q c = a)'},
+    'Quaternion.h QuaternionT::operator= QuaternionT<T, type-parameter-0-1> &(const QuaternionT<T, type-parameter-0-1> &)': {
+        'ops': ['oq'], 'theorems': ['assign_operators'],
+        'how': 'oq (inside c += s) + theorem assign_operators'},
+    'Quaternion.h QuaternionT::<constructor> void (const T &)': {
+        'ops': ['oq'], 'theorems': ['quat_scalar_operators'],
+        'how': 'oq'},
+    'Quaternion.h QuaternionT::<constructor> void (const rkcommon::math::QuaternionT::Vector &)': {
+        'ops': ['q'], 'theorems': [],
+        'how': 'q (inside a * v)'},
+    'Quaternion.h QuaternionT::<constructor> void (const T &, const T &, const T &, const T &)': {
+        'ops': ['q'], 'theorems': [],
+        'how': 'q (every case builds its input with it)'},
+    'Quaternion.h QuaternionT::<constructor> void (const T &, const rkcommon::math::QuaternionT::Vector &)': {
+        'ops': ['qr', 'rot'], 'theorems': [],
+        'how': 'qr, rot (inside Quaternion::rotate)'},
+    'Quaternion.h QuaternionT::<constructor> void (const rkcommon::math::QuaternionT::Vector &, const rkcommon::math::QuaternionT::Vector &, const rkcommon::math::QuaternionT::Vector &)': {
+        'ops': ['qf', 'rot'], 'theorems': ['quat_from_matrix_roundtrip'],
+        'how': 'qf, rot (declaration; the body is the out-of-line definition below)'},
+    'Quaternion.h QuaternionT::<constructor> void (const T &, const T &, const T &)': {
+        'ops': ['ypr'], 'theorems': ['quat_ypr'],
+        'how': 'ypr (declaration; the body is the out-of-line definition below)'},
+    'Quaternion.h QuaternionT::<constructor> void (rkcommon::math::ZeroTy)': {
+        'ops': ['oq'], 'theorems': ['constants_def', 'quat_scalar_operators'],
+        'how': 'oq'},
+    'Quaternion.h QuaternionT::<constructor> void (rkcommon::math::OneTy)': {
+        'ops': ['oq'], 'theorems': ['constants_def', 'quat_scalar_operators'],
+        'how': 'oq'},
+    'Quaternion.h QuaternionT::rotate QuaternionT<T, type-parameter-0-1> (const rkcommon::math::QuaternionT::Vector &, const T &)': {
+        'ops': ['qr', 'rot'], 'theorems': ['quat_rotate_matches_matrix'],
+        'how': 'qr, rot'},
+    'Quaternion.h QuaternionT::v const rkcommon::math::QuaternionT::Vector () const': {
+        'ops': ['q'], 'theorems': ['quat_to_matrix_apply', 'quat_mul_compose'],
+        'how': 'q (inside a * v)'},
+    'Quaternion.h operator* QuaternionT<T> (const T &, const QuaternionT<T> &)': {
+        'ops': ['sl', 'oq'], 'theorems': ['quat_scalar_operators', 'slerp_formula'],
+        'how': 'sl (fa * a), oq'},
+    'Quaternion.h operator* QuaternionT<T> (const QuaternionT<T> &, const T &)': {
+        'ops': ['q', 'oq'], 'theorems': ['quat_scalar_operators', 'quat_conj_rcp_normalize'],
+        'how': 'q (normalize, rcp), oq'},
+    'Quaternion.h operator* auto (const T &, const QuaternionT<U> &) -> QuaternionT<decltype(T() * U())>': {
+        'ops': ['oq', 'sl'], 'theorems': ['double_quaternion_operators_same'],
+        'how': 'oq (double flavour: float * quaterniond), sl double (lerp)'},
+    'Quaternion.h operator* auto (const QuaternionT<T> &, const U &) -> QuaternionT<decltype(T() * U())>': {
+        'ops': ['oq'], 'theorems': ['double_quaternion_operators_same'],
+        'how': 'oq (double flavour: quaterniond * float)'},
+    'Quaternion.h operator+ QuaternionT<T> (const QuaternionT<T> &)': {
+        'ops': ['oq', 'sl'], 'theorems': ['unary_operators'],
+        'how': 'oq, sl (-a)'},
+    'Quaternion.h operator- QuaternionT<T> (const QuaternionT<T> &)': {
+        'ops': ['oq', 'sl'], 'theorems': ['unary_operators', 'quat_from_matrix_roundtrip'],
+        'how': 'oq, sl (-a)'},
+    'Quaternion.h conj QuaternionT<T> (const QuaternionT<T> &)': {
+        'ops': ['q'], 'theorems': ['quat_conj_rcp_normalize'],
+        'how': 'q'},
+    'Quaternion.h abs T (const QuaternionT<T> &)': {
+        'ops': ['oq'], 'theorems': ['quat_abs_and_rotate_wrapper'],
+        'how': 'oq + theorem quat_abs_and_rotate_wrapper'},
+    'Quaternion.h rcp QuaternionT<T> (const QuaternionT<T> &)': {
+        'ops': ['q'], 'theorems': ['quat_conj_rcp_normalize'],
+        'how': 'q'},
+    'Quaternion.h dot T (const QuaternionT<T> &, const QuaternionT<T> &)': {
+        'ops': ['sl'], 'theorems': ['slerp_formula', 'quat_conj_rcp_normalize'],
+        'how': 'sl'},
+    'Quaternion.h normalize QuaternionT<T> (const QuaternionT<T> &)': {
+        'ops': ['q'], 'theorems': ['quat_conj_rcp_normalize'],
+        'how': 'q'},
+    'Quaternion.h operator+ QuaternionT<T> (const T &, const QuaternionT<T> &)': {
+        'ops': ['oq'], 'theorems': ['quat_scalar_operators'],
+        'how': 'oq'},
+    'Quaternion.h operator+ QuaternionT<T> (const QuaternionT<T> &, const T &)': {
+        'ops': ['oq'], 'theorems': ['quat_scalar_operators'],
+        'how': 'oq'},
+    'Quaternion.h operator+ QuaternionT<T> (const QuaternionT<T> &, const QuaternionT<T> &)': {
+        'ops': ['sl', 'oq'], 'theorems': ['compound_assign_quat', 'quat_scalar_operators', 'slerp_formula'],
+        'how': 'sl, oq'},
+    'Quaternion.h operator- QuaternionT<T> (const T &, const QuaternionT<T> &)': {
+        'ops': ['oq'], 'theorems': ['quat_scalar_operators'],
+        'how': 'oq'},
+    'Quaternion.h operator- QuaternionT<T> (const QuaternionT<T> &, const T &)': {
+        'ops': ['oq'], 'theorems': ['quat_scalar_operators'],
+        'how': 'oq'},
+    'Quaternion.h operator- QuaternionT<T> (const QuaternionT<T> &, const QuaternionT<T> &)': {
+        'ops': ['oq'], 'theorems': ['compound_assign_quat', 'quat_scalar_operators', 'slerp_formula'],
+        'how': 'oq (c -= b)'},
+    'Quaternion.h operator* typename QuaternionT<T>::Vector (const QuaternionT<T> &, const typename QuaternionT<T>::Vector &)': {
+        'ops': ['q'], 'theorems': ['quat_mul_compose', 'quat_to_matrix_apply'],
+        'how': 'q'},
+    'Quaternion.h operator* QuaternionT<T> (const QuaternionT<T> &, const QuaternionT<T> &)': {
+        'ops': ['q'], 'theorems': ['quat_mul_compose', 'quat_ypr'],
+        'how': 'q'},
+    'Quaternion.h operator/ QuaternionT<T> (const T &, const QuaternionT<T> &)': {
+        'ops': ['oq'], 'theorems': ['division_def', 'division_undoes_product'],
+        'how': 'oq'},
+    'Quaternion.h operator/ QuaternionT<T> (const QuaternionT<T> &, const T &)': {
+        'ops': ['oq'], 'theorems': ['division_def', 'division_undoes_product'],
+        'how': 'oq'},
+    'Quaternion.h operator/ QuaternionT<T> (const QuaternionT<T> &, const QuaternionT<T> &)': {
+        'ops': ['oq'], 'theorems': ['division_def', 'division_undoes_product'],
+        'how': 'oq'},
+    'Quaternion.h operator+= QuaternionT<T> &(QuaternionT<T> &, const T &)': {
+        'ops': ['oq'], 'theorems': ['compound_assign_quat'],
+        'how': 'oq'},
+    'Quaternion.h operator+= QuaternionT<T> &(QuaternionT<T> &, const QuaternionT<T> &)': {
+        'ops': ['oq'], 'theorems': ['compound_assign_quat'],
+        'how': 'oq'},
+    'Quaternion.h operator-= QuaternionT<T> &(QuaternionT<T> &, const T &)': {
+        'ops': ['oq'], 'theorems': ['compound_assign_quat'],
+        'how': 'oq'},
+    'Quaternion.h operator-= QuaternionT<T> &(QuaternionT<T> &, const QuaternionT<T> &)': {
+        'ops': ['oq'], 'theorems': ['compound_assign_quat'],
+        'how': 'oq'},
+    'Quaternion.h operator*= QuaternionT<T> &(QuaternionT<T> &, const T &)': {
+        'ops': ['oq'], 'theorems': ['compound_assign_quat'],
+        'how': 'oq'},
+    'Quaternion.h operator*= QuaternionT<T> &(QuaternionT<T> &, const QuaternionT<T> &)': {
+        'ops': ['oq'], 'theorems': ['compound_assign_quat'],
+        'how': 'oq'},
+    'Quaternion.h operator/= QuaternionT<T> &(QuaternionT<T> &, const T &)': {
+        'ops': ['oq'], 'theorems': ['compound_assign_quat'],
+        'how': 'oq'},
+    'Quaternion.h operator/= QuaternionT<T> &(QuaternionT<T> &, const QuaternionT<T> &)': {
+        'ops': ['oq'], 'theorems': ['compound_assign_quat'],
+        'how': 'oq'},
+    'Quaternion.h xfmPoint typename QuaternionT<T>::Vector (const QuaternionT<T> &, const typename QuaternionT<T>::Vector &)': {
+        'ops': ['q'], 'theorems': ['quat_xfm_aliases'],
+        'how': 'q (same body as a * v) + theorem quat_xfm_aliases'},
+    'Quaternion.h xfmQuaternion QuaternionT<T> (const QuaternionT<T> &, const QuaternionT<T> &)': {
+        'ops': ['oq'], 'theorems': ['quat_xfm_aliases'],
+        'how': 'oq'},
+    'Quaternion.h xfmNormal typename QuaternionT<T>::Vector (const QuaternionT<T> &, const typename QuaternionT<T>::Vector &)': {
+        'ops': ['oq'], 'theorems': ['quat_xfm_aliases'],
+        'how': 'oq'},
+    'Quaternion.h operator== bool (const QuaternionT<T> &, const QuaternionT<T> &)': {
+        'ops': ['oq', 'ocv', 'ocq'], 'theorems': ['comparison_quat'],
+        'how': 'oq + ocv (single-entry perturbations)'},
+    'Quaternion.h operator!= bool (const QuaternionT<T> &, const QuaternionT<T> &)': {
+        'ops': ['oq', 'ocv', 'ocq'], 'theorems': ['comparison_quat'],
+        'how': 'oq + ocv (single-entry perturbations)'},
+    'Quaternion.h <constructor> void (const typename QuaternionT<T, U>::Vector &, const typename QuaternionT<T, U>::Vector &, const typename QuaternionT<T, U>::Vector &)': {
+        'ops': ['qf', 'rot'], 'theorems': [],
+        'how': 'qf, rot'},
+    'Quaternion.h <constructor> void (const T &, const T &, const T &)': {
+        'ops': ['ypr'], 'theorems': [],
+        'how': 'ypr'},
+    'Quaternion.h operator<< std::ostream &(std::ostream &, const QuaternionT<T> &)': {
+        'ops': ['ocv', 'ocq'], 'theorems': [],
+        'how': 'ocv (printed text parsed back)'},
+    'Quaternion.h slerp QuaternionT<T> (const float, const QuaternionT<T> &, const QuaternionT<T> &)': {
+        'ops': ['sl'], 'theorems': ['slerp_formula', 'slerp_short_way', 'slerp_lerp_branch', 'slerp_endpoints'],
+        'how': 'sl'},
 }
 
 EXCLUDE = {
+    'AffineSpace.h AffineSpaceT::<constructor> void ()':
+        'explicitly defaulted default constructor: leaves the members indeterminate, nothing observable',
     'AffineSpace.h AffineSpaceT::rotate AffineSpaceT<L> (const typename L::Vector &, const QuaternionT<typename L::Vector::Scalar> &)':
         'ill-formed when instantiated: AffineSpaceT * LinearSpace3 has no operator* (reported as a finding; nothing to execute)',
     'AffineSpace.h operator/ AffineSpaceT<L> (const AffineSpaceT<L> &, const typename L::Vector::Scalar &)':
@@ -324,10 +483,14 @@ EXCLUDE = {
         'ill-formed when instantiated: calls the ill-formed operator/(AffineSpaceT, Scalar)',
     'AffineSpace.h xfmBounds const box_t<S, 3, A> (const AffineSpaceT<LinearSpace3<vec_t<S, 3, A>>> &, const box_t<S, 3, A> &)':
         'belongs to property C05 (boxes): modelled and checked there (coq/C05 xfmBounds theorems, harness/C05)',
+    'LinearSpace.h LinearSpace2::<constructor> void ()':
+        'explicitly defaulted default constructor: leaves the members indeterminate, nothing observable',
     'LinearSpace.h LinearSpace2::operator typename type-parameter-0-0::scalar_t * rkcommon::math::LinearSpace2::Scalar *()':
         'ill-formed when instantiated: static_cast<Scalar*>(&vx) from Vector* is not a valid static_cast',
     'LinearSpace.h LinearSpace2::operator const typename type-parameter-0-0::scalar_t * const rkcommon::math::LinearSpace2::Scalar *() const':
         'ill-formed when instantiated: static_cast<Scalar*>(&vx) from Vector* is not a valid static_cast',
+    'LinearSpace.h LinearSpace3::<constructor> void ()':
+        'explicitly defaulted default constructor: leaves the members indeterminate, nothing observable',
     'LinearSpace.h LinearSpace3::operator typename type-parameter-0-0::scalar_t * rkcommon::math::LinearSpace3::Scalar *()':
         'ill-formed when instantiated: static_cast<Scalar*>(&vx) from Vector* is not a valid static_cast',
     'LinearSpace.h LinearSpace3::operator const typename type-parameter-0-0::scalar_t * const rkcommon::math::LinearSpace3::Scalar *() const':
